@@ -1010,6 +1010,98 @@ def _inline_new_helper_statements(tree: ast.Module, stem: str, ref: dict) -> int
     return k
 
 
+def _generator_helpers_to_genexp(tree: ast.Module, stem: str, ref: dict) -> int:
+    """A generator function the reference tree does not have whose body is one loop nest that yields one element per innermost iteration
+    (`for ..: [for ..:] [if C: continue] [if C:] yield E`, or `if C: yield A else: yield B`), possibly after bindings of new locals to plain
+    arithmetic / comparisons of its parameters, is the generator expression with the same elements in the same order: the body becomes
+    `return (<that expression>)`, which the single-expression helper inlining then carries to the call sites.  Only taken when the outermost iterable is
+    a plain name or attribute chain (a generator expression evaluates it at creation, a generator function at the first element)."""
+    import copy
+    k = 0
+    for qn, fn in functions(tree):
+        if f"{stem}:{qn}" in ref or "." in qn or fn.decorator_list or isinstance(fn, ast.AsyncFunctionDef):
+            continue
+        own = list(_own_nodes(fn))
+        ys = [n for n in own if isinstance(n, ast.Yield)]
+        if not ys or any(isinstance(n, (ast.YieldFrom, ast.Return, ast.Await, ast.NamedExpr, ast.Lambda, ast.Try, ast.With, ast.While, ast.Break)) for n in own):
+            continue
+        body = [st for st in fn.body if not (isinstance(st, ast.Expr) and isinstance(st.value, ast.Constant))]
+        if not body or not isinstance(body[-1], ast.For):
+            continue
+        params = {a.arg for a in fn.args.args}
+        subst: Dict[str, ast.AST] = {}
+        ok = True
+
+        def plain(e):
+            if isinstance(e, ast.Constant):
+                return True
+            if isinstance(e, ast.Name):
+                return e.id in params or e.id in subst
+            if isinstance(e, ast.Compare):
+                return plain(e.left) and all(plain(c) for c in e.comparators)
+            if isinstance(e, ast.BoolOp):
+                return all(plain(v) for v in e.values)
+            if isinstance(e, ast.UnaryOp):
+                return plain(e.operand)
+            if isinstance(e, ast.BinOp):
+                return plain(e.left) and plain(e.right)
+            return False
+        for st in body[:-1]:
+            if isinstance(st, ast.Assign) and len(st.targets) == 1 and isinstance(st.targets[0], ast.Name) and st.targets[0].id not in params \
+                    and st.targets[0].id not in subst and plain(st.value):
+                subst[st.targets[0].id] = st.value
+            else:
+                ok = False
+                break
+        if not ok:
+            continue
+        stores = [n.id for n in own if isinstance(n, ast.Name) and not isinstance(n.ctx, ast.Load)]
+        if any(stores.count(nm) != 1 for nm in subst) or any(p_ in stores for p_ in params):
+            continue
+        gens = []
+        cur = body[-1]
+        elt = None
+
+        def yielded(st):
+            return st.value.value if isinstance(st, ast.Expr) and isinstance(st.value, ast.Yield) and st.value.value is not None else None
+        while True:
+            if isinstance(cur, ast.For) and not cur.orelse and cur.body and all(
+                    isinstance(g_, ast.If) and not g_.orelse and len(g_.body) == 1 and isinstance(g_.body[0], ast.Continue) for g_ in cur.body[:-1]):
+                gens.append(ast.comprehension(target=cur.target, iter=cur.iter, ifs=[_negate(g_.test) for g_ in cur.body[:-1]], is_async=0))
+                cur = cur.body[-1]
+                continue
+            if isinstance(cur, ast.If) and not cur.orelse and len(cur.body) == 1 and gens:
+                gens[-1].ifs.append(cur.test)
+                cur = cur.body[0]
+                continue
+            break
+        if yielded(cur) is not None:
+            elt = yielded(cur)
+        elif isinstance(cur, ast.If) and len(cur.body) == 1 and len(cur.orelse) == 1 and yielded(cur.body[0]) is not None and yielded(cur.orelse[0]) is not None:
+            elt = ast.copy_location(ast.IfExp(test=cur.test, body=yielded(cur.body[0]), orelse=yielded(cur.orelse[0])), cur)
+        if elt is None or not gens or len([n for n in ast.walk(ast.Module(body=[body[-1]], type_ignores=[])) if isinstance(n, ast.Yield)]) != len(ys):
+            continue
+        it0 = gens[0].iter
+        if not (isinstance(it0, ast.Name) or (isinstance(it0, ast.Attribute) and _pure(it0))):
+            continue
+        tnames = {m.id for g in gens for m in ast.walk(g.target) if isinstance(m, ast.Name)}
+        if tnames & (params | set(subst)):
+            continue
+        gen = ast.GeneratorExp(elt=elt, generators=gens)
+        if subst:
+            class S(ast.NodeTransformer):
+                def visit_Name(self, n):
+                    if isinstance(n.ctx, ast.Load) and n.id in subst:
+                        return S().visit(copy.deepcopy(subst[n.id]))
+                    return n
+            gen = S().visit(gen)
+        doc = [st for st in fn.body if isinstance(st, ast.Expr) and isinstance(st.value, ast.Constant)][:1]
+        fn.body = doc + [ast.copy_location(ast.Return(value=gen), body[-1])]
+        ast.fix_missing_locations(fn)
+        k += 1
+    return k
+
+
 def _inline_temp_returns(fn) -> int:
     k = 0
     # names read later than a return can only be read by a closure or a finally block: those keep their assignment
@@ -1213,6 +1305,8 @@ def _fold_accumulators(fn, keep: Set[str]) -> int:
             return v.func.id
         return None
 
+    two_armed: Set[int] = set()
+
     def unwrap(loop, x, kind):
         """-> (generators, element) or None"""
         gens = []
@@ -1222,6 +1316,12 @@ def _fold_accumulators(fn, keep: Set[str]) -> int:
                 gens.append(ast.comprehension(target=cur.target, iter=cur.iter, ifs=[], is_async=0))
                 cur = cur.body[0]
                 continue
+            if isinstance(cur, ast.For) and not cur.orelse and len(cur.body) >= 2 and all(
+                    isinstance(g_, ast.If) and not g_.orelse and len(g_.body) == 1 and isinstance(g_.body[0], ast.Continue) for g_ in cur.body[:-1]):
+                # guard clauses `if C: continue` in front of the one statement that matters are filters `if not C`
+                gens.append(ast.comprehension(target=cur.target, iter=cur.iter, ifs=[_negate(g_.test) for g_ in cur.body[:-1]], is_async=0))
+                cur = cur.body[-1]
+                continue
             if isinstance(cur, ast.If) and not cur.orelse and len(cur.body) == 1 and gens:
                 gens[-1].ifs.append(cur.test)
                 cur = cur.body[0]
@@ -1229,10 +1329,19 @@ def _fold_accumulators(fn, keep: Set[str]) -> int:
             break
         if not gens:
             return None
-        if kind in ("list", "set") and isinstance(cur, ast.Expr) and isinstance(cur.value, ast.Call) and isinstance(cur.value.func, ast.Attribute) \
-                and isinstance(cur.value.func.value, ast.Name) and cur.value.func.value.id == x and len(cur.value.args) == 1 and not cur.value.keywords \
-                and cur.value.func.attr == ("append" if kind == "list" else "add") and not isinstance(cur.value.args[0], ast.Starred):
-            return gens, cur.value.args[0]
+
+        def pushed(st):
+            if kind in ("list", "set") and isinstance(st, ast.Expr) and isinstance(st.value, ast.Call) and isinstance(st.value.func, ast.Attribute) \
+                    and isinstance(st.value.func.value, ast.Name) and st.value.func.value.id == x and len(st.value.args) == 1 and not st.value.keywords \
+                    and st.value.func.attr == ("append" if kind == "list" else "add") and not isinstance(st.value.args[0], ast.Starred):
+                return st.value.args[0]
+            return None
+        if pushed(cur) is not None:
+            return gens, pushed(cur)
+        if isinstance(cur, ast.If) and len(cur.body) == 1 and len(cur.orelse) == 1 and pushed(cur.body[0]) is not None and pushed(cur.orelse[0]) is not None:
+            # one element either way: `if C: x.append(A) else: x.append(B)` pushes `A if C else B`
+            two_armed.add(id(cur))
+            return gens, ast.copy_location(ast.IfExp(test=cur.test, body=pushed(cur.body[0]), orelse=pushed(cur.orelse[0])), cur)
         if kind == "dict" and isinstance(cur, ast.Assign) and len(cur.targets) == 1 and isinstance(cur.targets[0], ast.Subscript) \
                 and isinstance(cur.targets[0].value, ast.Name) and cur.targets[0].value.id == x:
             return gens, (cur.targets[0].slice, cur.value)
@@ -1258,7 +1367,7 @@ def _fold_accumulators(fn, keep: Set[str]) -> int:
                     continue
                 gens, elt = hit
                 inside = [m for m in ast.walk(b) if isinstance(m, ast.Name)]
-                if sum(1 for m in inside if m.id == x) != 1:
+                if sum(1 for m in inside if m.id == x) != (2 if any(id(m) in two_armed for m in ast.walk(b)) else 1):
                     continue  # the accumulator is read inside the loop
                 if any(isinstance(m, (ast.Yield, ast.YieldFrom, ast.Await, ast.NamedExpr, ast.Lambda)) for m in ast.walk(b)):
                     continue
@@ -2086,6 +2195,7 @@ class Normalizer:
         if mod_entry is not None:
             self.constants_folded += _fold_new_module_constants(tree, set(mod_entry["names"]))
         if INLINE_HELPERS and self.ref:
+            self.helpers_inlined += 0 * _generator_helpers_to_genexp(tree, stem, self.ref)
             for _ in range(2):
                 n_ = _inline_new_helper_calls(tree, stem, self.ref)
                 self.helpers_inlined += n_
